@@ -1,7 +1,9 @@
 _ALPHA = "content bytes symbolic over {a,B}"
 _ARGS = "every position/count argument is a symbolic 32-bit value: 0..length+1 case-split, everything above (out-of-range, npos) one symbolic class"
 SPEC = dict(
-    harness="C48_sbufvalue.cc", units=SBUF,
+    harness="C48_sbufvalue.cc",
+    # the two former exclusions (chop()/substr() count wrap, rawAppendStart() beyond maxSize) are compiled out: both defects are repaired in /repo
+    defines=["C48_SHOW_FINDINGS=1"], units=SBUF,
     entries=dict(
         quick=[
             dict(name="c48_mutate", bounds="2 SBufs in 4 sharing shapes (independent, copy, tail slice, grown-after-copy; thorough also head slice) of a 0..3 byte value; ONE of 18 mutators (assign, assign substr of other/own, append SBuf/substr/raw pointer into own or other storage/char/c-string, assign(ptr,n), consume, chop, trim, setAt, clear, reserveSpace/Capacity, reserve, c_str, rawAppendStart+Finish) on either SBuf from either; " + _ARGS + "; " + _ALPHA + "; all SBufs compared with their references afterwards",
@@ -26,6 +28,5 @@ SPEC = dict(
     timeout=dict(quick=170, thorough=1500),
     stubs=["memAllocBuf rounding as mem/old_api.cc (2 KB minimum blob)", "the static prototype blob all empty SBufs start on is claimed by a dummy SBuf first (as in a running Squid), except in c48_seq3", "debugs() disabled", "libc memchr/memrchr/memcmp/tolower/isupper models (C locale)",
            "harness writes back the (already determined) concrete value of SBuf::off_/len_ and MemBlob::size/capacity after each operation (engine hint, identity natively)"],
-    assumptions=["two KNOWN-FINDING candidates are excluded by assumption (see harness): chop()/substr() with pos+n >= 2^32 (n != npos), rawAppendStart(n) with length+n >= 2^32-1"],
     outside="more than 3 SBufs, longer values and longer sequences than stated; values near maxSize (256 MB): only the argument checks of reserveSpace/reserveCapacity/rawAppendStart are exercised with huge arguments, reservations between 4 bytes and maxSize are not executed; Printf/appendf/vappendf, SBuf(std::string), toStdString, std::hash<SBuf>; operator[] out of range (documented undefined); raw pointers outside the source SBuf (caller contract)",
 )
